@@ -29,7 +29,7 @@ impl Prop for C01 {
         if tier == Tier::Thorough {
             vec!["count_0xfd_or_more", "len_64k_or_more", "segwit_tx", "verify_on", "midrun_flush", "txcount_65536"]
         } else {
-            vec!["count_0xfd_or_more", "segwit_tx", "verify_on", "midrun_flush", "noncanonical_compactsize", "high_segment_with_arbitrary_coinbase_script"]
+            vec!["count_0xfd_or_more", "segwit_tx", "verify_on", "midrun_flush", "noncanonical_compactsize", "high_segment_with_arbitrary_coinbase_script", "size_prefix_differs_from_block_length"]
         }
     }
     fn explore(&self, item: u64, rng: &mut Rng, tier: Tier, h: &mut Harness) -> Result<(), String> {
@@ -101,6 +101,13 @@ impl Prop for C01 {
                     }
                 }
             }
+        }
+        // "blocksize the stored length prefix": a prefix that is not the length of what follows it (smaller or
+        // larger) is reported as stored and delimits nothing
+        if rng.chance(1, 8) {
+            let d = *rng.pick(&[-1i64, -7, -80, -100_000, 1, 9, 1_000, 5_000_000]);
+            scn.params = serde_json::json!({ "size_prefix_delta": d });
+            h.stats.probe("size_prefix_differs_from_block_length");
         }
         let mut lay = random_layout(scn.chain.len(), 3, true, rng);
         if rng.chance(1, 3) {
